@@ -107,7 +107,7 @@ def gen_model(rng) -> dict:
             nm = tnames[i]
             terms.append(f"{pn}*{'log(' + nm + ')' if tlog[i] else nm}")
             val += d * (math.log(steady[nm]) if tlog[i] else steady[nm])
-        own = rng.random() < 0.8
+        own = rng.random() < 0.8 or (j > 0 and len(mshocks) < j)      # at most one equation without its own shock
         if own:
             mshocks.append(f"w{j+1}")
             terms.append(f"w{j+1}")
@@ -608,6 +608,21 @@ def case_summary(case: dict) -> dict:
     return {k: v for k, v in case.items()}
 
 
+def degenerate_case(case: dict) -> bool:
+    """True when the stacked covariance of the observed data, rebuilt from the model's public solution
+    with dense linear algebra, is singular or worse conditioned than COND_MAX (the joint density of
+    the data does not exist / is outside the tolerance regime)."""
+    try:
+        m = build_model(case["model"])
+        sol = public_solution(m)
+        ref = batch_reference(case, sol, period_inputs(case, sol))
+    except np.linalg.LinAlgError:
+        return True
+    except Exception:  # noqa
+        return False
+    return bool(max([ref["cond"]] + ref["conds"]) > COND_MAX or not np.isfinite(ref["nll"]))
+
+
 def collect_cases(ctx, n: int, max_periods: int, notes: dict) -> list:
     """Generate cases and run the implementation on them; keep the well-conditioned stationary ones."""
     out = []
@@ -618,6 +633,9 @@ def collect_cases(ctx, n: int, max_periods: int, notes: dict) -> list:
         try:
             impl = run_impl(case)
         except Exception as e:  # noqa
+            if isinstance(e, np.linalg.LinAlgError) and degenerate_case(case):
+                notes["skipped_singular"] = notes.get("skipped_singular", 0) + 1     # F really is singular
+                continue
             notes.setdefault("impl_raised", []).append({"case": case, "error": f"{type(e).__name__}: {e}"[:300]})
             continue
         if impl["num_unit_roots"] or impl["unknown_init"] is not None:
@@ -797,6 +815,7 @@ def correspondence(ctx, n_cases: int, n_exact: int, max_periods: int, pid: str) 
     dist["exact_rational_cases"] = len(exact_pairs)
     dist["skipped_ill_conditioned"] = notes.get("skipped_ill_conditioned", 0)
     dist["skipped_unit_root"] = notes.get("skipped_unit_root", 0)
+    dist["skipped_singular"] = notes.get("skipped_singular", 0)
     res.distribution = dist
     res.rule = ("one random stationary model built from source text through Simultaneous.from_string (1-4 transition "
                 "variables, lags up to 2, optional lag identity and shock-free equation, log variables, 1-3 measurement "
@@ -896,14 +915,20 @@ def falsify_c08_case(case: dict, tol=1e-7) -> list[Failure]:
     import irispie as ir
     fails: list[Failure] = []
     model = case["model"]
-    m = build_model(model)
-    db, span = input_databox(m, case)
-    opts = kf_options(case)
     key_in = case
     repro = "harness.kalman_common.falsify_c08_case(case)  # case = the 'input' of this record"
     try:
+        m = build_model(model)
+    except Exception as e:  # noqa
+        return [Failure("build:raises", f"building/solving the model raises {type(e).__name__}: {e}", case, repr(e)[:300],
+                        "a solved model", repro)]
+    db, span = input_databox(m, case)
+    opts = kf_options(case)
+    try:
         out, info = m.kalman_filter(db, span, return_info=True, **opts)
     except Exception as e:  # noqa
+        if isinstance(e, np.linalg.LinAlgError) and degenerate_case(case):
+            return []
         return [Failure("kalman_filter:raises", f"kalman_filter raises {type(e).__name__}: {e}", key_in, repr(e)[:300],
                         "filter output", repro)]
     dev = case["deviation"]
@@ -1158,13 +1183,19 @@ def falsify_c03_case(case: dict, tol=1e-7) -> list[Failure]:
     """C03 on one case: the filter's output against dense Gaussian conditioning."""
     fails: list[Failure] = []
     model = case["model"]
-    m = build_model(model)
+    repro = "harness.kalman_common.falsify_c03_case(case)  # case = the 'input' of this record"
+    try:
+        m = build_model(model)
+    except Exception as e:  # noqa
+        return [Failure("build:raises", f"building/solving the model raises {type(e).__name__}: {e}", case, repr(e)[:300],
+                        "a solved model", repro)]
     db, span = input_databox(m, case)
     opts = kf_options(case)
-    repro = "harness.kalman_common.falsify_c03_case(case)  # case = the 'input' of this record"
     try:
         out, info = m.kalman_filter(db, span, return_info=True, **opts)
     except Exception as e:  # noqa
+        if isinstance(e, np.linalg.LinAlgError) and degenerate_case(case):
+            return []
         return [Failure("kalman_filter:raises", f"kalman_filter raises {type(e).__name__}: {e}", case, repr(e)[:300],
                         "filter output", repro)]
     sol = public_solution(m)
